@@ -1162,6 +1162,21 @@ class StateEngine(object):
             terminated = branch_results.get("terminated")
             has_terminated = terminated or parent_terminated
 
+            """
+            The failure of a Map or Parallel state ends every fan-out nested
+            below it, not only the ones directly below: check the rest of the
+            Branch stack too, otherwise an event two or more levels below the
+            failed state carries on and, should it fail as well (e.g. every
+            branch runs into the execution deadline), fails the enclosing
+            states and ends the execution a second time.
+            """
+            if not has_terminated:
+                for ancestor_info in branch_info_stack[:-2]:
+                    ancestor_results = all_branch_results.get(ancestor_info.get("ID"))
+                    if ancestor_results and ancestor_results.get("terminated"):
+                        has_terminated = True
+                        break
+
             if has_terminated:
                 #print("*** has_terminated ***")
                 iterator_range = branch_info.get(
